@@ -47,6 +47,8 @@ configured limit, or the limit when no max is declared). -/
 structure MT where
   min : Nat
   max : Nat
+  /-- threads proposal: a shared memory (fixed buffer, atomic length) -/
+  shared : Bool := false
   deriving DecidableEq, Repr, Inhabited
 
 /-- the decoder's treatment of memory limits (`newMemorySizer` without capacity-from-max) -/
@@ -151,6 +153,7 @@ structure MemInst where
   pages : Nat
   max : Nat
   bytes : List (Nat × Nat)  -- sparse: the latest entry for an address wins; default 0
+  shared : Bool := false
   deriving Repr, Inhabited
 
 inductive FBody where
@@ -221,7 +224,12 @@ def matchTable (expected : TT) (t : TableInst) : Bool :=
      | none => false
      | some am => !(em < am))
 
+/-- `resolveImports`, memory case, as it is since finding F47 was repaired: the limits AND the shared flag -/
 def matchMem (expected : MT) (m : MemInst) : Bool :=
+  !(expected.min > m.pages) && !(expected.max < m.max) && (expected.shared == m.shared)
+
+/-- the pinned tree compared the limits only (finding F47) -/
+def matchMemAsIs (expected : MT) (m : MemInst) : Bool :=
   !(expected.min > m.pages) && !(expected.max < m.max)
 
 def matchGlobal (expected : GT) (g : GlobalInst) : Bool :=
@@ -412,7 +420,7 @@ def splitExterns : List Extern → (List Nat × List Nat × Option Nat × List N
   | .global a :: r => let (f, t, m, g) := splitExterns r; (f, t, m, a :: g)
 
 def mkTable (tt : TT) : TableInst := { refs := List.replicate tt.min 0, min := tt.min, max := tt.max, rt := tt.rt }
-def mkMem (mt : MT) : MemInst := { pages := mt.min, max := mt.max, bytes := [] }
+def mkMem (mt : MT) : MemInst := { pages := mt.min, max := mt.max, bytes := [], shared := mt.shared }
 
 /-- buildGlobals: each module-defined global is initialised from its constant expression, which can
 only see the imported globals (`.Val` field!) -/
